@@ -261,7 +261,8 @@ def check_module_state(ctx: CheckContext, p: Program, r: Resolver, cone: List[Fu
                 tgs = st.targets if isinstance(st, (ast.Assign, ast.Delete)) else [st.target]
                 for t in tgs:
                     for t1 in (t.elts if isinstance(t, (ast.Tuple, ast.List)) else [t]):
-                        cands.append((t1, "store", st))
+                        # `self.ATTR += [...]` mutates the object ATTR refers to in place (list.__iadd__) before it rebinds the name
+                        cands.append((t1, "augstore" if isinstance(st, ast.AugAssign) and isinstance(t1, ast.Attribute) else "store", st))
             elif isinstance(st, ast.Call) and isinstance(st.func, ast.Attribute) and st.func.attr in MUTATING_METHODS:
                 cands.append((st.func.value, "call ." + st.func.attr, st))
             elif isinstance(st, ast.Call) and isinstance(st.func, ast.Name) and st.func.id == "setattr" and st.args:
